@@ -1043,9 +1043,9 @@ func (ix *idxProver) foundAt(v ssa.Value, at *ssa.BasicBlock) bool {
 		}
 		edge := -1
 		switch {
-		case bo.Op == token.GTR && k == -1, bo.Op == token.GEQ && k == 0, bo.Op == token.NEQ && k == -1:
-			edge = 0
-		case bo.Op == token.EQL && k == -1, bo.Op == token.LSS && k == 0:
+		case bo.Op == token.GTR && k >= -1, bo.Op == token.GEQ && k >= 0, bo.Op == token.NEQ && k == -1:
+			edge = 0 // v > k ≥ -1, v ≥ k ≥ 0: at least 0 on the true edge
+		case bo.Op == token.EQL && k == -1, bo.Op == token.LSS && k == 0, bo.Op == token.LEQ && k == -1:
 			edge = 1
 		}
 		if edge < 0 {
